@@ -37,6 +37,8 @@ def run(ctx, rep):
         rep.ob("R14.3", "Connection.serve: the receive lock is only ever try-acquired (a waiter sleeps on the condition, never on "
                "the lock)", True, "no helper is handed the lock with a blocking flag", ctx.func(K.CONN + ".serve").loc, kind="site")
     try:
+        from .c13 import condition_released
+        condition_released(ctx, rep, "R14.3")
         f, g, lock, cond, acq, acq_nodes, acq_edges, fail_edges, rel_nodes, held = serve_slots(ctx)
     except AnalysisError as e_:
         if esc:
